@@ -320,6 +320,24 @@ func (w *World) AllocBoundSized(n ssa.Value, at ssa.Instruction, inputs []ssa.Va
 	if c.Prove(g) {
 		return Outcome{Proved: true, Goals: []string{c.Describe(g)}}
 	}
+	// proportional to memory that already exists: every len(x) term of the size
+	// (a field of the receiver, a result of a call, a local slice — each of which
+	// was itself allocated under this rule or handed in by the caller)
+	sum2 := sum
+	seenT := map[lin.Term]bool{}
+	for t := range fi.terms {
+		tt := lin.Term(t)
+		if fi.terms[t].kind == tLen && c.introduced[tt] && !seenT[tt] {
+			seenT[tt] = true
+			sum2 = sum2.Add(lin.V(tt).ScaleI(8))
+		}
+	}
+	if len(seenT) > 0 {
+		g2 := lin.LE(f, sum2)
+		if c.Prove(g2) {
+			return Outcome{Proved: true, Goals: []string{c.Describe(g2) + " (lengths of existing slices)"}}
+		}
+	}
 	return Outcome{Proved: false, Failed: fmt.Sprintf("%d·%s bytes <= 2^17  or  <= 8·Σlen(inputs)+64", elemSize, valName(n)), Facts: c.FactStrings(g, 16)}
 }
 
